@@ -130,6 +130,11 @@ def menu(f, with_queries=False, full=True):
     if dn and not conv:
         # right operand with the same shapes but another dimension name: the result keeps the left's dimensions
         add('binop_renamed', noncoord_num, dim=dn[0])
+        # a left operand that is shorter along one dimension: outside the domain (the second operand may be
+        # broadcast to the first, not the reverse), but whatever comes back must be well-formed
+        add('binop_reduced_left', False, dim=dn[0])
+        # renaming a dimension to its own name changes nothing
+        add('renameDimension', not conv, old=dn[-1], new=dn[-1])
     if 'x' in vars_ and vars_['x'][0] == ('x',) and dims.get('x', 0) >= 2 \
             and vars_['x'][1].kind in NUM:
         xv = np.asarray(f.variables['x'][...], dtype='d')
@@ -205,6 +210,8 @@ def do_op(f, op):
             return f - f
         if op['o'] == '*':
             return f * f
+    if name == 'binop_reduced_left':
+        return f.applyAlongDimensions(**{op['dim']: 'mean'}) - f
     if name == 'binop_renamed':
         return f - f.renameDimension(op['dim'], op['dim'] + '_r')
     if name == 'interpDimension':
